@@ -9,7 +9,6 @@ import (
 
 	"github.com/bronlabs/bron-crypto/pkg/base/algebra"
 	ds "github.com/bronlabs/bron-crypto/pkg/base/datastructures"
-	"github.com/bronlabs/bron-crypto/pkg/base/datastructures/bitset"
 	"github.com/bronlabs/bron-crypto/pkg/base/datastructures/hashset"
 	"github.com/bronlabs/bron-crypto/pkg/base/mat"
 	"github.com/bronlabs/bron-crypto/pkg/base/utils/sliceutils"
@@ -158,6 +157,24 @@ func normaliseCNF(unqualifiedSets ...ds.Set[ID]) ([]ds.Set[ID], error) {
 	return maximalSets, nil
 }
 
+// compareIDSets orders identifier sets like their bit-mask images (bit id-1 set for every member id) without
+// materialising the mask, so identifiers above 64 are supported: scanning both sets from the largest identifier
+// down, the set that holds the larger identifier at the first difference is the greater one.
+func compareIDSets(a, b ds.Set[ID]) int {
+	la, lb := a.List(), b.List()
+	slices.Sort(la)
+	slices.Sort(lb)
+	i, j := len(la)-1, len(lb)-1
+	for i >= 0 && j >= 0 {
+		if la[i] != lb[j] {
+			return cmp.Compare(la[i], lb[j])
+		}
+		i--
+		j--
+	}
+	return cmp.Compare(i, j)
+}
+
 // InducedMSP constructs a monotone span programme from a CNF access
 // structure. Each clause yields one block of rows, one per clause member.
 func InducedMSP[E algebra.PrimeFieldElement[E]](f algebra.PrimeField[E], c *CNF) (*msp.MSP[E], error) {
@@ -179,11 +196,7 @@ func InducedMSP[E algebra.PrimeFieldElement[E]](f algebra.PrimeField[E], c *CNF)
 	// verification in protocols that independently reconstruct the MSP
 	// (e.g. Gennaro DKG over KW).
 	sortedMUS := slices.Clone(c.maximalUnqualifiedSets)
-	slices.SortFunc(sortedMUS, func(a, b ds.Set[ID]) int {
-		ba := bitset.NewImmutableBitSet(a.List()...)
-		bb := bitset.NewImmutableBitSet(b.List()...)
-		return cmp.Compare(uint64(ba), uint64(bb))
-	})
+	slices.SortFunc(sortedMUS, compareIDSets)
 
 	m := len(sortedMUS)
 	clauses := sliceutils.Map(sortedMUS, func(bi ds.Set[ID]) ds.Set[ID] {
